@@ -7,7 +7,7 @@ W=$(mktemp -d /tmp/seedwt-XXXXXX); rmdir $W
 git -C /repo worktree add --detach $W >/dev/null 2>&1 || { echo "worktree failed"; exit 2; }
 trap 'git -C /repo worktree remove --force $W >/dev/null 2>&1' EXIT
 cd $W
-DEMO=$(ls $D/*_test.go 2>/dev/null | head -1)
+DEMO=$D/demo_test.go; [ -f "$DEMO" ] || DEMO=$(ls $D/*_test.go 2>/dev/null | head -1)
 PKGDIR=.
 grep -q '^package cli' "$DEMO" 2>/dev/null && PKGDIR=cli
 # demo must pass on the clean tree
